@@ -288,9 +288,9 @@ fn ops(t: &T) -> u32 {
     }
 }
 
-/// Operator trees over identifiers have a counterpart in the model's surface syntax (the
-/// round-trip theorem's domain): its wire form, without / with the redundant parentheses of
-/// the fully parenthesised rendering.  None: the tree uses literals or postfix forms.
+/// Trees have a counterpart in the model's surface syntax (the round-trip theorem's domain):
+/// its wire form, without / with the redundant parentheses of the fully parenthesised
+/// rendering.  None: the tree contains a negative literal (a token pair in the grammar).
 fn st_wire(t: &T, full: bool) -> Option<String> {
     let sub = |x: &T| -> Option<String> {
         let w = st_wire(x, full)?;
@@ -299,8 +299,48 @@ fn st_wire(t: &T, full: bool) -> Option<String> {
     Some(match t {
         T::Id(n) => format!("(id {})", sx_str(n)),
         T::Cond(c, a, b) => format!("(cond {} {} {})", sub(c)?, sub(a)?, sub(b)?),
+        T::Int(i) if *i >= 0 => format!("(lint {})", i),
         T::Not(a) => format!("(not 0 {})", sub(a)?),
+        // '-' directly before a number would belong to the literal: print_min parenthesises it
+        T::Neg(a) if !full && starts_with_number(a) => format!("(neg 0 (paren {}))", st_wire(a, full)?),
         T::Neg(a) => format!("(neg 0 {})", sub(a)?),
+        T::Sel(a, f) => format!("(sel {} {})", sub(a)?, sx_str(f)),
+        T::Idx(a, i) => format!("(idx {} {})", sub(a)?, sub(i)?),
+        T::MCall(r, f, args) => {
+            let mut o = format!("(mcall {} {}", sub(r)?, sx_str(f));
+            for a in args {
+                o.push(' ');
+                o.push_str(&sub(a)?);
+            }
+            o.push(')');
+            o
+        }
+        T::GCall(f, args) => {
+            let mut o = format!("(call {}", sx_str(f));
+            for a in args {
+                o.push(' ');
+                o.push_str(&sub(a)?);
+            }
+            o.push(')');
+            o
+        }
+        T::List(es) => {
+            let mut o = String::from("(list");
+            for a in es {
+                o.push(' ');
+                o.push_str(&sub(a)?);
+            }
+            o.push(')');
+            o
+        }
+        T::Map(es) => {
+            let mut o = String::from("(map");
+            for (k, v) in es {
+                o.push_str(&format!(" ({} {})", sub(k)?, sub(v)?));
+            }
+            o.push(')');
+            o
+        }
         T::Bin(op, a, b) => {
             let (a, b) = (sub(a)?, sub(b)?);
             match *op {
